@@ -172,18 +172,15 @@ def cells():
     return out
 
 
+# quick: 4 cells per side in which every flag is on twice and off twice
 QUICK_CELLS = [
     ("server", True, True, False, False),
-    ("server", False, True, False, False),
-    ("server", True, True, True, False),
-    ("server", True, False, False, True),
-    ("server", False, False, True, False),
+    ("server", False, False, False, True),
+    ("server", True, False, True, False),
     ("server", False, True, True, True),
     ("client", True, True, False, False),
-    ("client", False, True, False, False),
-    ("client", True, True, True, False),
-    ("client", True, False, False, True),
-    ("client", False, False, True, False),
+    ("client", False, False, False, True),
+    ("client", True, False, True, False),
     ("client", False, True, True, True),
 ]
 
@@ -196,7 +193,7 @@ def shards(tier, seed):
             out.append({"kind": "dfs", "sub": i, "cell": list(c), "max_events": 4, "max_states": 40000, "gaps": [GAP_SETTLE, 0, 1], "max_nosettle": 1 if c[3] else 2,
                         "maxc": {"send": 1, "wait": 2, "tick": 3}})
         for i in range(4):
-            out.append({"kind": "random", "sub": 100 + i, "n": 6000})
+            out.append({"kind": "random", "sub": 100 + i, "n": 4000})
         return out
     for i, c in enumerate(cells()):
         # all 32 cells: every schedule of <= 5 events with gaps {settle, 0, 1}, at most 2 non-settled gaps
@@ -938,6 +935,8 @@ class WsRun:
 
 
 def execute(cell, schedule, rseed=0, final=False, maxc=None):
+    """Run one schedule from scratch.  `final` is a bool or a callable(sig) -> bool deciding, from the abstract state reached
+    after the last event, whether the run is driven to the end and judged (the DFS skips that for pruned states)."""
     run = WsRun(cell, rseed, maxc)
     try:
         if run.setup_error:
@@ -949,7 +948,8 @@ def execute(cell, schedule, rseed=0, final=False, maxc=None):
             run.apply(kind, gap)
         sig = run.signature()
         en = run.enabled()
-        if final:
+        run.finalised = bool(final(sig)) if callable(final) else bool(final)
+        if run.finalised:
             run.final_checks()
         return run, sig, en
     finally:
@@ -1057,30 +1057,31 @@ def dfs(spec, rec):
         if stats["states"] >= budget:
             truncated[0] = True
             return
-        run, sig, en = execute(cell, schedule, rseed=rseed, maxc=maxc)
-        stats["transitions"] += 1
-        # breaches are recorded (by the final run below) but never cut the exploration short: a listed finding must not
-        # hide the schedules behind it
         nos = sum(1 for _k, g in schedule if g != GAP_SETTLE)
-        key = (sig, nos)
-        if key in seen:
+
+        def fresh(sig):
+            return (sig, nos) not in seen
+
+        # one execution per node: the abstract state after the last event decides whether the node is new; only new nodes
+        # are driven to the end and judged (every prefix is a complete schedule of its own)
+        run, sig, en = execute(cell, schedule, rseed=rseed, final=fresh, maxc=maxc)
+        stats["transitions"] += 1
+        if not run.finalised:
             rec.count("dfs-pruned")
             return
-        seen.add(key)
+        seen.add((sig, nos))
         stats["states"] += 1
         rec.sig("abstract-state", [repr(x) for x in sig])
-        if len(schedule) >= spec["max_events"] or not en:
-            run2, _s, _e = execute(cell, schedule, rseed=rseed, final=True, maxc=maxc)
-            report(rec, cell, schedule, run2, "dfs", rseed=rseed, maxc=maxc)
+        # breaches are recorded but never cut the exploration short: a listed finding must not hide the schedules behind it
+        report(rec, cell, schedule, run, "dfs", rseed=rseed, maxc=maxc)
+        leaf = len(schedule) >= spec["max_events"] or not en
+        if leaf:
             stats["complete"] += 1
-            if stats["complete"] % 150 == 1:
-                rec.sample({"cell": list(cell), "schedule": fmt(schedule), "recv": run2.recv_log, "close": [(c.result, c.exc) for c in run2.closers],
-                            "close_code": run2.ws.close_code, "frames": [OPNAME.get(f[0]) for f in run2.aio_frames()]})
+        if stats["states"] % 400 == 1:
+            rec.sample({"cell": list(cell), "schedule": fmt(schedule), "recv": run.recv_log, "close": [(c.result, c.exc) for c in run.closers],
+                        "close_code": run.ws.close_code, "frames": [OPNAME.get(f[0]) for f in run.aio_frames()]})
+        if leaf:
             return
-        # every prefix is also judged as a complete schedule (driven to the end)
-        run2, _s, _e = execute(cell, schedule, rseed=rseed, final=True, maxc=maxc)
-        report(rec, cell, schedule, run2, "dfs", rseed=rseed, maxc=maxc)
-        # end-state breaches (W3-W6) classify the ending of *this* schedule; longer schedules are still explored
         for ev in en:
             for g in gaps:
                 if g != GAP_SETTLE and nos >= spec["max_nosettle"]:
